@@ -363,6 +363,37 @@ def c19_long_floats():
         run_case("long-float:apply_serialized", dict(d, f="apply_serialized"), lambda: jsonlogic_rs.apply_serialized('{"*":[1,%r]}' % f), '{"*":[1,%r]}' % f, "null")
 
 
+JSON_SPELLING_STRINGS = ['{"a": 1}', '[]', '{}', '{"var": "a"}', '[1,2]', ' [1] ', '{"var":""}', '"quoted"', '[{"var":"a"}]', 'null', '1', 'true', '{"a":1}\n', '[[', '{"+":["x"]}']
+TEMPLATE_STRINGS = ["%s", "%d", "%(k)s", "%", "%%", "100%", "%5.2f", "{}", "{0}", "{k}", "{", "}", "${a}", "$a", "\\n", "\\u0041", "%c", "%r", "{!r}", "%*d", "%n"]
+
+
+def c19_strings_are_strings():
+    """a Python str is a JSON string whatever it spells (JSON text, format directives, templates): as the whole rule,
+    the whole data, inside them - and when it ends up quoted in a library error, the error is still a ValueError"""
+    for i, t in enumerate(JSON_SPELLING_STRINGS):
+        if i % nshards != shard:
+            continue
+        d = {"string": t}
+        for rule, data in ((t, None), ({"var": ""}, t), ({"var": "a"}, t), ({"cat": [{"var": ""}, "!"]}, t), (t, {"a": 1}), ({"===": [{"var": ""}, t]}, t), ({"var": "k"}, {"k": t}), ([t], None)):
+            rt, dt = json.dumps(rule), json.dumps(data)
+            run_case("strings:apply", dict(d, f="apply", rule=ascii(rule), data=ascii(data)), lambda: jsonlogic_rs.apply(rule, data), rt, dt)
+            run_case("strings:apply_serialized", dict(d, f="apply_serialized", rule=ascii(rule), data=ascii(data)), lambda: jsonlogic_rs.apply_serialized(rt, dt), rt, dt)
+            run_case("strings:apply(raw serializer)", dict(d, f="apply", rule=ascii(rule), data=ascii(data), serializer="raw"), lambda: jsonlogic_rs.apply(rule, data, raw_dumps), raw_dumps(rule), raw_dumps(data))
+    for i, t in enumerate(TEMPLATE_STRINGS):
+        if i % nshards != shard:
+            continue
+        d = {"string": t}
+        for rule, data in (({"+": [t]}, None), ({"*": [{"var": "a"}, 2]}, {"a": "x" + t}), ({"in": [1, {"var": ""}]}, {"k": t}), ({"substr": [t]}, None), ({"var": [[t]]}, None), ({"/": [1, t]}, None),
+                           ({"max": [t, 1]}, None), ({"map": [t, 1]}, None), ({"missing_some": [t, []]}, None), (t, None), ({"cat": [t, {"var": ""}]}, t), ({"%": [7, t]}, None), ({"all": [{"var": ""}, 1]}, {t: 1})):
+            rt, dt = json.dumps(rule), json.dumps(data)
+            run_case("templates:apply", dict(d, f="apply", rule=ascii(rule), data=ascii(data)), lambda: jsonlogic_rs.apply(rule, data), rt, dt)
+            run_case("templates:apply_serialized", dict(d, f="apply_serialized", rule=ascii(rule), data=ascii(data)), lambda: jsonlogic_rs.apply_serialized(rt, dt), rt, dt)
+            run_case("templates:apply_serialized(deserializer)", dict(d, f="apply_serialized", rule=ascii(rule), data=ascii(data), deserializer="tagged"), lambda: jsonlogic_rs.apply_serialized(rt, dt, tagged), rt, dt, post=lambda text, v: ("D", text))
+        # malformed texts holding the directive
+        run_case("templates:bad-text", dict(d, f="apply_serialized"), lambda: jsonlogic_rs.apply_serialized('{"var": ' + t), '{"var": ' + t, "null")
+        run_case("templates:bad-data-text", dict(d, f="apply_serialized"), lambda: jsonlogic_rs.apply_serialized('{"var":""}', '["' + t), '{"var":""}', '["' + t)
+
+
 def c19_long_errors():
     """library errors that quote long non-ASCII content must still be ValueError"""
     units = ["é", "€", "水", "😀", "z"]
@@ -590,6 +621,7 @@ try:
         c19_padding()
         c19_large_twins()
         c19_long_floats()
+        c19_strings_are_strings()
     else:
         c01()
 finally:
